@@ -13,7 +13,9 @@ import (
 	"log"
 	"os"
 	"path"
+	"runtime"
 	"sync/atomic"
+	"time"
 
 	"github.com/youzan/ZanRedisDB/common"
 	"github.com/youzan/ZanRedisDB/engine"
@@ -1512,6 +1514,10 @@ func (s *sim) step() {
 		default:
 			d = uint64(t.U32())<<32 | uint64(t.U32())
 		}
+		if !s.hasBatch && len(s.held) == 0 && t.Bool(150) {
+			s.twoWriters(k, d)
+			return
+		}
 		s.batchOp(bop{kind: bMerge, k: k, v: putLE64(d)})
 	case opClear:
 		s.finishBatch(false)
@@ -1579,4 +1585,61 @@ func (s *sim) finish() {
 		})
 	}
 	os.RemoveAll(s.dir)
+}
+
+// twoWriters: two write batches of different goroutines overlap (in production:
+// the apply loop and the background expiry checker). Writer A opens its batch
+// with a put, writer B - another goroutine - merges into a counter and commits,
+// A merges into the same counter and commits. Counter merges commute, so
+// whatever the engine does about the overlap (block B, collect operands,
+// evaluate at commit) the counter ends as base + both deltas. The process runs
+// on one P: after `go` + Gosched B has run until it finished or blocked on the
+// engine's writer lock, so the interleaving is the same in every execution.
+func (s *sim) twoWriters(k []byte, d1 uint64) {
+	t := s.t
+	d2 := uint64(t.Range(1, 9))
+	f := s.pool[t.Choose(len(s.pool))]
+	fv := s.genValue()
+	s.c.Log("two-writers", "ctr=%x d1=%d d2=%d filler=%x", k, d1, d2, f)
+	s.c.Probe("two-overlapping-write-batches")
+	for _, en := range s.engs {
+		en := en
+		hung := false
+		s.do(en, "two writers", func() {
+			a := en.e.NewWriteBatch()
+			a.Put(clone(f), clone(fv))
+			done := make(chan error, 1)
+			go func() {
+				b := en.e.NewWriteBatch()
+				b.Merge(clone(k), putLE64(d2))
+				err := b.Commit()
+				b.Clear()
+				b.Destroy()
+				done <- err
+			}()
+			runtime.Gosched()
+			a.Merge(clone(k), putLE64(d1))
+			errA := a.Commit()
+			a.Clear()
+			a.Destroy()
+			select {
+			case errB := <-done:
+				if errA != nil || errB != nil {
+					s.c.Violate(prop, "commit-error", "", "%s: overlapping batches: commit errors %v / %v", en.name, errA, errB)
+				}
+			case <-time.After(20 * time.Second):
+				hung = true
+			}
+		})
+		if hung {
+			en.dead = true
+			s.abort = true
+			s.c.Violate(prop, "two-writers-hang", "", "%s: a write batch that overlapped another one never finished its commit", en.name)
+			return
+		}
+	}
+	s.m.apply([]bop{{kind: bPut, k: f, v: fv}, {kind: bMerge, k: k, v: putLE64(d1)}})
+	s.m.apply([]bop{{kind: bMerge, k: k, v: putLE64(d2)}})
+	s.commits += 2
+	s.verifyAllKeys("after-two-writers")
 }
